@@ -232,7 +232,8 @@ def finish(ctx, write_evidence=True):
                 analysis_errors=['%s %s: %s' % e for e in ctx.errors],
                 notes=ctx.notes[:200],
                 selftest=ctx.selftest,
-                trusted_base=['CPython ast module', 'vendored registries under /verif/registry',
+                trusted_base=['CPython ast module', 'canonicalising front-end sa/canon.py + sa/inline.py with the reference table spec/locals.json (DESIGN.md 8.1, 8.7, 8.8)',
+                              'vendored registries under /verif/registry',
                               'hand-transcribed specification rows under /verif/spec'],
                 checker_cmd='./check %s --tier %s' % (ctx.prop, ctx.tier),
             ),
